@@ -288,6 +288,54 @@ def all_schedules(prog, x, forms, cfg0, cap):
             return results, n, False
 
 
+def default_section_runs(programs, rng):
+    """C03 only: input files with a [DEFAULT] section.  configparser shows a DEFAULT value in every section that EXISTS, so an
+    input can be missing at first (its section is not there yet), become readable when an answer creates the section, and then
+    be answered differently.  The step-wise specification does not model DEFAULT (DESIGN 12.2); these runs are only judged at
+    the end: every stored value must be what its definition yields on the final inputs (Judge.tla J03)."""
+    import configparser
+    obs, metas = [], {}
+    oid = 0
+    for prog in programs:
+        x = progs_mod.expand(prog)
+        inputs = sorted(x["all_inputs"])
+        by_sec = {}
+        for i in inputs:
+            by_sec.setdefault(i.split(".")[0], []).append(i)
+        if not any(len(v) > 1 for v in by_sec.values()):
+            continue
+        forms = progs_mod.build_forms(prog)
+        for k in range(2):
+            dflt = {b: rng.choice(["0", "1"]) for b in sorted(set(i.split(".", 1)[1] for i in inputs)) if rng.random() < 0.8}
+            if not dflt:
+                continue
+            conf = configparser.ConfigParser()
+            conf["DEFAULT"] = dict(dflt)
+            explicit = {}
+            if k == 1:
+                for i in inputs:
+                    if rng.random() < 0.2:
+                        explicit[i] = rng.choice(["0", "1"])
+                        if not conf.has_section(i.split(".")[0]):
+                            conf.add_section(i.split(".")[0])
+                        conf.set(i.split(".")[0], i.split(".", 1)[1], explicit[i])
+            # the user's answers contradict the DEFAULT values
+            answers = {i: ("1" if dflt.get(i.split(".", 1)[1], "0") == "0" else "0") for i in inputs}
+            chooser = runs.random_chooser(random.Random(rng.random())) if k == 1 else None
+            oid += 1
+            meta = {"prog": prog["id"], "default_section": dflt, "cfg0": explicit, "answers": answers, "prompt": True, "sched": "rnd" if k == 1 else "nat",
+                    "request": list(prog["request"])}
+            trace, res, solver = runs.run_traced(forms, conf, list(prog["request"]), prog["fieldNames"], user=runs.ScriptedUser(answers), chooser=chooser,
+                                                 mode="prog", snap="none", tid=oid, body=x["body"], meta=meta, max_events=2000, names=list(x["formOf"].keys()))
+            if trace.get("overflow"):
+                continue
+            o = observe(trace, res, solver, prog, oid, explicit, meta)
+            o["cfg"] = {n: v for n, v in o["cfg"].items() if n in x["formOf"]}       # DEFAULT keys show under every section
+            obs.append(o)
+            metas[oid] = meta
+    return obs, metas
+
+
 def judge(work, programs, obs):
     """TLC evaluates Judge.tla on the observations -> {oid: [6 messages]}"""
     progs_mod.emit_module(programs, os.path.join(work, "GenProgs.tla"))
@@ -381,6 +429,19 @@ def run(pid, tier):
             if msgs[col] and pid != "C05":   # C05 is decided by comparing runs with each other, below
                 rep.violation("judge:prog%d:%s" % (byid[oid]["meta"]["prog"], msgs[col][:60]), msgs[col],
                               {"kind": "program-run", "meta": byid[oid]["meta"], "seed": sd})
+        if pid == "C03":
+            dobs, dmetas = default_section_runs(allp, rng)
+            if dobs:
+                jw = common.mkwork()
+                try:
+                    dres, _jt = judge(jw, allp, dobs)
+                finally:
+                    common.rmwork(jw)
+                for oid, msgs in dres.items():
+                    if msgs[col]:
+                        rep.violation("judge-default-section:prog%d:%s" % (dmetas[oid]["prog"], msgs[col][:60]), msgs[col],
+                                      {"kind": "program-run", "meta": dmetas[oid], "seed": sd})
+            cov["runs_with_a_DEFAULT_section_judged_for_fixed_point"] = len(dobs)
         # C05: identical result for identical (program, requested forms, supplied inputs)
         ngroups = 0
         if pid == "C05":
